@@ -1,10 +1,10 @@
 SPECIFICATION Spec
 CONSTANTS
-  NK = 2
-  NV = 1
-  Shades = 1
+  NK = 3
+  NV = 2
+  Shades = 2
   BDepth = 4
   Obs <- ObsEmit
-INVARIANTS TypeOK SortedNoDup GetAfterSet RemoveOnce IterLaw
+INVARIANTS TypeOK SortedNoDup GetAfterSet RemoveOnce FillLaw ExactValueLaw IterLaw
 PROPERTIES MutatorsOnly SlotsIndependent DupIsEqual
 CHECK_DEADLOCK FALSE
